@@ -7,9 +7,10 @@ META = {
     "harness_bins": ["c17"],
     "extract": "C17.v",
     "technique": "Coq proof: tree model of Vector/Slice refines lists for every operation history (wf invariant + list refinement, any branching factor >= 2); model tied to the Rust crate by differential replay of clone/mutate histories (extracted OCaml model vs Rust, contents and tree representation of every live handle compared after every operation)",
-    "level_text": "Proved in Coq for every branching factor B >= 2 (not only powers of two), every element type and every operation history (coq/Props/C17.v, 27 theorems, closed under the global context): "
+    "level_text": "Proved in Coq for every branching factor B >= 2 (not only powers of two), every element type and every operation history (coq/Props/C17.v, 33 theorems, closed under the global context): "
                   "C17_history_refines - for every op list over a family of vector and slice handles (new/from/clone/drop/push/pop/set/get/truncate/extend/iter_from, slice push/pop/set/get/slice/extend/extend-from-slice/iter) the implementation-shaped run irun and the run srun of independent lists return the same result at every step (including exactly the same panics), and after every step every live handle satisfies the Prop-level invariant wf/swf and denotes (to_list / sl_list) the list the specification holds for it; so an operation through one handle never changes what another handle denotes (C17_frame_vec, C17_frame_slice). "
                   "wf (uniform depth = height, packed left, chunks of 1..B entries with every chunk off the right edge full, interior root with >= 2 children, vlen = number of elements, height = height_for_length vlen) is established by new and preserved by push/pop/set/truncate/extend, none of which panics in contract, and each refines the list operation (++[x], last/removelast, nth_error, list_set, firstn, ++, skipn); wf implies the crate's check_invariants; slice operations refine the window firstn (end-start) (skipn start l); shifts/masks equal div/mod for B = 2^k (C17_bit_ops_agree). "
+                  "Strengthening T1 (Vector/RcHeap.v, C17_rc_*): new/clone/get/set/push over an explicit heap of reference-counted cells with Rc::make_mut (copy iff count <> 1, children's counts bumped on copy); with exact counts as invariant, set and push through one handle refine the value-level operation and leave the abstraction of every other live handle unchanged (frame), and calling Node::set on a shared root without make_mut provably breaks it (RcExamples.v). "
                   "The model is hand-written from vector.rs/slice.rs; the tie to the code is the correspondence run: the same histories are executed by the extracted model and by the Rust crate built from /repo for B in {2,4,8,32}, and after every operation the result, the contents and the exact tree representation (node structure, chunk contents, length, height, start, end, read off the derived Debug output) of every live handle are compared; independently every Rust handle is compared with a Vec twin and check_invariants() is called (direct oracle).",
     "level_note": "Trusted: Coq kernel; extraction (ExtrOcamlBasic only); the hand-written model's reading of vector.rs/slice.rs (value-level: Rc sharing/make_mut is modelled as value copy, which is what safe Rust guarantees for a crate without unsafe); imbl-sized-chunks; the derived Debug impls used to read the Rust trees; the history generator. The fuel of vextend_loop and the iterator-as-list view of Extend are part of the model (proved sufficient: extend never returns None). Not covered: IterMut / iter_mut_starting_at, serde impls, Hash/Eq impls, usize overflow (lengths are unbounded nat in the model). Note: the crate's own check_invariants()/is_packed is weaker than wf (it ignores right_most below an interior node; Vector/Examples.v: check_invariants_incomplete), so the Vec twin and the tree comparison carry the direct oracle.",
 }
@@ -374,7 +375,7 @@ def generate(ck):
 
 
 def run(ck):
-    ck.coq("Props.C17", extra_targets=["Vector/Examples.vo"], clean=(ck.tier == "thorough"))
+    ck.coq("Props.C17", extra_targets=["Vector/Examples.vo", "Vector/RcExamples.vo"], clean=(ck.tier == "thorough"))
     ok = ck.harness(["c17"])
     exe_model = ck.model("C17.v")
     if not ok or not exe_model:
